@@ -5,7 +5,8 @@
    Function by function, as written (including the stale values used by checkFinishDistribution,
    the owner-keyed distributionInfo, the hard-coded small-gauge filter and the per-epoch min-value cache).
    External NoLock gauges on concentrated-liquidity pools are modelled minimally (creation, the per-epoch amount
-   floor(remaining / remaining epochs) handed to the pool through CreateIncentive, which rejects a zero amount).
+   floor(remaining / remaining epochs) handed to the pool through CreateIncentive; a coin whose per-epoch amount
+   is zero is skipped for this epoch - /repo commit 5be8fedaa6, before which the zero coin failed the whole epoch).
    Not modelled: group gauges, internal NoLock gauges, synthetic-lock gauges, the concentrated-liquidity side of
    CreateIncentive (incentive records, emission rate, uptime), the gauge-id-by-denom index, events, gas, telemetry.
    The value lookup (protorev route + pool CalcOutAmtGivenIn) is injected per epoch as a table [tval].
@@ -355,13 +356,13 @@ Definition sum_locks (ls : list lock) : Z := fold_left (fun a l => a + l_amt l) 
 Definition max_int_bits : Z := 256.
 
 (* the NoLock branch of distributeInternal: for every remaining coin the per-epoch amount
-   remainCoin.Amount.Quo(remainEpochs) goes to clk.CreateIncentive, which rejects a zero coin (its error is returned) *)
-Fixpoint nolock_coins (re : Z) (remain : coins) (acc : coins) : option coins :=
+   remainCoin.Amount.Quo(remainEpochs) goes to clk.CreateIncentive; a zero amount is skipped ([continue]) *)
+Fixpoint nolock_coins (re : Z) (remain : coins) (acc : coins) : coins :=
   match remain with
-  | [] => Some acc
+  | [] => acc
   | (d, R) :: r =>
       let amt := Z.quot R re in
-      if amt <=? 0 then None else nolock_coins re r (coins_add acc [(d, amt)])
+      if amt <=? 0 then nolock_coins re r acc else nolock_coins re r (coins_add acc [(d, amt)])
   end.
 
 (* distributeInternal; result: the gauge to write (None = no write), dinfo, cache.
@@ -376,13 +377,10 @@ Definition distribute_internal (cfg : config) (thr : Z -> tval) (g : gauge) (ls 
       let re := remain_epochs g in
       if re =? 0 then Err E_EPOCH else
       if negb (g_pool g =? 0) then
-        match nolock_coins re remain [] with
-        | None => Err E_EPOCH
-        | Some total =>
-            Ok (Some (post_update g total),
-                (if is_empty total then di else add_lock_rewards di (pool_addr (g_pool g)) (pool_addr (g_pool g)) total),
-                cache)
-        end
+        let total := nolock_coins re remain [] in
+        Ok (Some (post_update g total),
+            (if is_empty total then di else add_lock_rewards di (pool_addr (g_pool g)) (pool_addr (g_pool g)) total),
+            cache)
       else
       if is_empty ls then Ok (None, di, cache) else
       if is_empty remain then Ok (Some (post_update g []), di, cache) else
